@@ -68,6 +68,10 @@ def handle (line : String) : String :=
       match n.toNat? with
       | some n => runTokens RwLock.accept (RwLock.init n) toks
       | none => "bad-header"
+    | "barrier" :: n :: _ =>
+      match n.toNat? with
+      | some n => runTokens Barrier.accept (Mutex.init n) toks
+      | none => "bad-header"
     | "once" :: n :: _ =>
       match n.toNat? with
       | some n => runTokens Once.accept (Once.init n) toks
